@@ -18,16 +18,31 @@ import XotModel.Model.FspecSpec
 namespace XotModel
 namespace Spec
 
+/-- Two adjacent text nodes as one: the LEFT node keeps its identity and carries both data. -/
+def joinLeft (x y : HTree) : Option HTree :=
+  match x.value, y.value with
+  | .text s, .text u => some (x.setValue (.text (s ++ u)))
+  | _, _ => none
+
+/-- Two adjacent text nodes as one: the RIGHT node keeps its identity and carries both data. -/
+def joinRight (t z : HTree) : Option HTree :=
+  match t.value, z.value with
+  | .text u, .text w => some (z.setValue (.text (u ++ w)))
+  | _, _ => none
+
 /-- `a` and `b` (handles) stand next to each other in this order and are both text: they become
     one node, `a`, carrying both data.  Otherwise nothing changes. -/
 def mergeAdj (a b : Nat) : List HTree → List HTree
   | x :: y :: rest =>
     if x.handle = a ∧ y.handle = b then
-      (match x.value, y.value with
-       | .text s, .text u => x.setValue (.text (s ++ u)) :: rest
-       | _, _ => x :: y :: rest)
+      ((joinLeft x y).map (fun j => j :: rest)).getD (x :: y :: rest)
     else x :: mergeAdj a b (y :: rest)
   | l => l
+
+/-- `t` is the first child considered: only a right neighbour to merge into. -/
+def mergeNewHead (t : HTree) : List HTree → List HTree
+  | z :: rest => ((joinRight t z).map (fun j => j :: rest)).getD (t :: z :: rest)
+  | [] => [t]
 
 /-- The text node `n` (handle) is merged into its left neighbour if that is a text node, else into
     its right neighbour if that is one; the neighbour keeps its identity.  A node that is not text
@@ -35,20 +50,10 @@ def mergeAdj (a b : Nat) : List HTree → List HTree
 def mergeNew (n : Nat) : List HTree → List HTree
   | x :: y :: rest =>
     if y.handle = n then
-      (match x.value, y.value with
-       | .text s, .text u => x.setValue (.text (s ++ u)) :: rest
-       | _, _ => x :: mergeNewHead y rest)
+      ((joinLeft x y).map (fun j => j :: rest)).getD (x :: mergeNewHead y rest)
     else if x.handle = n then mergeNewHead x (y :: rest)
     else x :: mergeNew n (y :: rest)
   | l => l
-where
-  /-- `t` is the head: only a right neighbour to merge into. -/
-  mergeNewHead (t : HTree) : List HTree → List HTree
-    | z :: rest =>
-      (match t.value, z.value with
-       | .text u, .text w => z.setValue (.text (u ++ w)) :: rest
-       | _, _ => t :: z :: rest)
-    | [] => [t]
 
 /-- The handles of the raw left and right neighbours of the child `n` in a child list. -/
 def neighbours (n : Nat) : List HTree → Option Nat × Option Nat
@@ -62,6 +67,12 @@ def neighbours (n : Nat) : List HTree → Option Nat × Option Nat
 end Spec
 
 namespace Forest
+
+/-- The raw neighbours of `n` in its parent's child list (none for a parentless node). -/
+def nbOf (f : Forest) (n : Nat) : Option Nat × Option Nat :=
+  match f.parent? n with
+  | some p => Spec.neighbours n (f.kidsOf p)
+  | none => (none, none)
 
 /-- The pair merge at the place a node has left (only a child list has neighbours). -/
 def mergeLeftAt (f : Forest) (s : Option Nat) (nb : Option Nat × Option Nat) : Forest :=
@@ -84,9 +95,7 @@ def specMoveP (dest : Dest) (n : Nat) (f : Forest) : Forest :=
   match f.get? n, dest.site f with
   | some t, some q =>
     let old := f.parent? n
-    let nb := match old with
-      | some p => neighbours n (f.kidsOf p)
-      | none => (none, none)
+    let nb := f.nbOf n
     let cut := f.editAt old (dropTop n)
     let grafted := cut.editAt (some q) (dest.insert t)
     (grafted.mergeLeftAt old nb).mergeNewAt q n
@@ -95,9 +104,7 @@ def specMoveP (dest : Dest) (n : Nat) (f : Forest) : Forest :=
 /-- **Remove**, pair reading. -/
 def specRemoveP (n : Nat) (f : Forest) : Forest :=
   let old := f.parent? n
-  let nb := match old with
-    | some p => neighbours n (f.kidsOf p)
-    | none => (none, none)
+  let nb := f.nbOf n
   (f.editAt old (dropTop n)).mergeLeftAt old nb
 
 /-- **Detach**, pair reading. -/
@@ -106,9 +113,7 @@ def specDetachP (n : Nat) (f : Forest) : Forest :=
   | none => f
   | some t =>
     let old := f.parent? n
-    let nb := match old with
-      | some p => neighbours n (f.kidsOf p)
-      | none => (none, none)
+    let nb := f.nbOf n
     ((f.editAt old (dropTop n)).editAt none (insertLast t)).mergeLeftAt old nb
 
 /-- The corner in which xot deviates from the pair reading (recorded finding
